@@ -211,6 +211,13 @@ def run_kind(ctx, kind, extra=None, shards=None, exe='harness', tier=None, timeo
         return (cp, gp, lp)
     with ThreadPoolExecutor(max_workers=shards) as ex:
         results = list(ex.map(one, range(shards)))
+    # a shard that died (killed under memory pressure, or past its deadline on an overloaded machine) is run once more, alone,
+    # when the others have finished: only a failure that repeats is reported
+    for i, r in enumerate(results):
+        if r[0] == 'harness-failed':
+            results[i] = one(i)
+            dist = ctx.dist.setdefault('shards_rerun', {})
+            dist[kind] = dist.get(kind, 0) + 1
     rows = []
     for r in results:
         if r[0] in ('harness-failed', 'driver-failed'):
@@ -278,11 +285,15 @@ def shrink(ctx, case_line, differs):
     return cur
 
 
+WATCHDOG_RE = re.compile(r'harness-timeout|did not return|\bhang|hung|timed out|never returned|never-returned|never-entered')
+
+
 def compare(ctx, rows, proj, what, oracle=None, nontrivial=None, max_report=3, oracle_is_property=False, recheck=0):
     """diff projected results; group disagreements by operator; shrink and report.
     `proj(resdict) -> comparable`, `oracle(case_line, go_resdict) -> None | message`."""
     bad = {}
     orc = {}
+    wd_rerun = []
     for c, g, l in rows:
         ctx.evaluations += 1
         gd, ld = parse_res(g), parse_res(l)
@@ -298,9 +309,35 @@ def compare(ctx, rows, proj, what, oracle=None, nontrivial=None, max_report=3, o
             ctx.traces_validated += 1
         if oracle is not None:
             msg = oracle(c, gd)
+            if msg and WATCHDOG_RE.search(msg) and len(wd_rerun) < 40:
+                # the message comes from a wall-clock watchdog of the harness (a call that did not return in time, a case past its
+                # deadline): on an overloaded machine that can happen once; the case is run again alone and judged on that run
+                wd_rerun.append(c)
+                again = replay_cases(ctx, [c])
+                if again:
+                    msg = oracle(c, parse_res(again[0][1]))
+                    if msg is None:
+                        ctx.notes.append(f'{what}: a watchdog flag did not reproduce when the case was re-run alone ({c.split()[1]})')
             if msg:
                 op = re.search(r'\bop=(\S+)', c)
                 orc.setdefault((op.group(1) if op else '?', msg.split(':')[0]), []).append((c, g, msg))
+    # disagreements whose implementation line carries a watchdog flag of the harness (deadline passed, a call that did not return
+    # in time): re-run alone once - on an overloaded machine a deadline can pass once; a defect reproduces
+    nwd = 0
+    for op in list(bad):
+        keep = []
+        for c, g, l in bad[op]:
+            if nwd < 40 and (WATCHDOG_RE.search(g) or 'usable=0' in g or 'harness-failed' in g):
+                nwd += 1
+                again = replay_cases(ctx, [c])
+                if again and proj(parse_res(again[0][1])) == proj(parse_res(again[0][2])):
+                    ctx.notes.append(f'{what}: a watchdog flag did not reproduce when the case was re-run alone ({c.split()[1]})')
+                    continue
+            keep.append((c, g, l))
+        if keep:
+            bad[op] = keep
+        else:
+            del bad[op]
     if recheck and bad:
         # kinds that observe goroutines / wall-clock grace periods: a disagreement must reproduce when the case
         # is run again alone (a loaded machine can stretch a grace period once; a defect does it every time)
